@@ -11,6 +11,7 @@ the stored energies are NOT re-evaluated, and under strict ranges the population
 So a reconfigured run is a fold over its performed iterations, each with ITS objective.  No Mathlib imports.
 -/
 import MysticVerif.Model.Solver
+import MysticVerif.Model.NelderMead
 
 namespace MysticVerif.Solver
 
@@ -34,5 +35,23 @@ def DE.genStep [LT E] [DecidableLT E] (g : DEGen X E) (s : DE X E) : DE X E :=
 /-- the whole run: generation after generation, each under its own objective -/
 def DE.runCfg [LT E] [DecidableLT E] (gs : List (DEGen X E)) (s : DE X E) : DE X E :=
   gs.foldl (fun s g => DE.genStep g s) s
+
+end MysticVerif.Solver
+
+namespace MysticVerif.Solver
+
+variable {R E : Type}
+
+/-- Nelder-Mead's re-decoration under strict ranges (scipy_optimize.py l.201-212).  Before generation 1
+(`k ≤ 1` performed iterations) only `population[0]` is clipped into the box; afterwards the whole simplex is rebuilt
+around the clipped `population[0]` - row `i+1` is `population[0]` with coordinate `i` replaced by
+`_setSimplexWithinRangeBoundary()[i]` - while `popEnergy` is left as it was. -/
+def NM.redecorate (clip0 mkVal : Pt R → Pt R) (zero : R) (k : Nat) (sx : List (Pt R × E)) : List (Pt R × E) :=
+  match sx with
+  | [] => []
+  | (x0', f0) :: tl =>
+    let x0 := clip0 x0'
+    if k ≤ 1 then (x0, f0) :: tl
+    else (x0, f0) :: (tl.zipIdx.map fun p => (x0.set p.2 ((mkVal x0).getD p.2 zero), p.1.2))
 
 end MysticVerif.Solver
